@@ -501,28 +501,88 @@ func main() {
 	sort.Strings(agg.Violations)
 	confirmed := []string{}
 	seenClass := map[string]bool{}
-	for i, v := range agg.Violations {
-		cfg := workerCfg{Property: prop, Mode: "replay", Tier: tier, VerifSeed: seed, NWorkers: 1, OutFile: filepath.Join(scratch, fmt.Sprintf("confirm%d.json", i)), Replay: v, Findings: openIDs, MaxProcs: 4}
-		s, err := runWorker(bin, cfg, 20*time.Minute)
+	replayOnce := func(path string, tag string, procs int) string {
+		cfg := workerCfg{Property: prop, Mode: "replay", Tier: tier, VerifSeed: seed, NWorkers: 1, OutFile: filepath.Join(scratch, "confirm-"+tag+".json"), Replay: path, Findings: openIDs, MaxProcs: procs}
+		s, err := runWorker(bin, cfg, 30*time.Minute)
 		if err != nil {
-			die(2, "replay of %s failed to run: %v", v, err)
+			die(2, "replay of %s failed to run: %v", path, err)
 		}
-		var rf struct {
-			Class  string `json:"class"`
-			Detail string `json:"detail"`
-		}
+		return s.Determinism["class"]
+	}
+	irreproducible := []string{}
+	for i, v := range agg.Violations {
+		var rf map[string]interface{}
 		b, _ := os.ReadFile(v)
 		json.Unmarshal(b, &rf)
-		if s.Determinism["class"] != rf.Class {
-			die(2, "replay file %s does not reproduce in a fresh process (recorded %q, replayed %q)", v, rf.Class, s.Determinism["class"])
-		}
-		if seenClass[rf.Class] {
+		class, _ := rf["class"].(string)
+		detail, _ := rf["detail"].(string)
+		if seenClass[class] {
 			os.Remove(v) // one replay file per violation class is enough
 			continue
 		}
-		seenClass[rf.Class] = true
+		tag := strconv.Itoa(i)
+		if replayOnce(v, tag, 4) != class {
+			// The violation may depend on state that earlier runs of the same worker
+			// process left behind (itself a cross-call leak). Replay the run after the
+			// runs that preceded it in that worker, then shorten that prefix.
+			worker, _ := rf["explored_by_worker"].(float64)
+			nworkers, _ := rf["explored_with_workers"].(float64)
+			procs, _ := rf["explored_at_gomaxprocs"].(float64)
+			idx, _ := rf["run_index"].(float64)
+			var prefix []int
+			for r := int(worker); r < int(idx) && nworkers > 0; r += int(nworkers) {
+				prefix = append(prefix, r)
+			}
+			minTape := rf["tape"]
+			try := func(pfx []int, tape interface{}, sub string) bool {
+				rf["prefix_runs"] = pfx
+				rf["tape"] = tape
+				tb, _ := json.MarshalIndent(rf, "", " ")
+				tmp := filepath.Join(scratch, "prefix-"+tag+"-"+sub+".json")
+				os.WriteFile(tmp, tb, 0o644)
+				return replayOnce(tmp, tag+"-"+sub, int(procs)) == class
+			}
+			if len(prefix) == 0 || !try(prefix, rf["tape_before_shrinking"], "full") {
+				irreproducible = append(irreproducible, fmt.Sprintf("%s (%s)", v, class))
+				os.Remove(v)
+				continue
+			}
+			best := prefix
+			for k := 1; k < len(prefix); k *= 2 {
+				if try(prefix[len(prefix)-k:], rf["tape_before_shrinking"], fmt.Sprintf("last%d", k)) {
+					best = prefix[len(prefix)-k:]
+					break
+				}
+			}
+			tape := rf["tape_before_shrinking"]
+			if try(best, minTape, "min") {
+				tape = minTape
+			}
+			rf["prefix_runs"], rf["tape"] = best, tape
+			rf["prefix_note"] = "the violation depends on state left in the process by the listed earlier runs (executed first, in order, in the same process); the run alone does not show it"
+			delete(rf, "tape_before_shrinking")
+			fb, _ := json.MarshalIndent(rf, "", " ")
+			os.WriteFile(v, fb, 0o644)
+			if replayOnce(v, tag+"-final", int(procs)) != class {
+				irreproducible = append(irreproducible, fmt.Sprintf("%s (%s)", v, class))
+				os.Remove(v)
+				continue
+			}
+			fmt.Printf("simdrv: %s needs %d earlier run(s) of the same process to manifest; they are part of the replay file\n", class, len(best))
+		} else {
+			delete(rf, "tape_before_shrinking")
+			fb, _ := json.MarshalIndent(rf, "", " ")
+			os.WriteFile(v, fb, 0o644)
+		}
+		seenClass[class] = true
 		confirmed = append(confirmed, v)
-		fmt.Printf("simdrv: %s: %s\n", rf.Class, rf.Detail)
+		fmt.Printf("simdrv: %s: %s\n", class, detail)
+	}
+	if len(confirmed) == 0 && len(irreproducible) > 0 {
+		die(2, "%d violation report(s) did not reproduce in a fresh process, even after the runs that preceded them: %s", len(irreproducible), strings.Join(irreproducible, "; "))
+	}
+	if len(irreproducible) > 0 {
+		fmt.Printf("simdrv: note: %d further violation report(s) did not reproduce in a fresh process and are not reported\n", len(irreproducible))
 	}
 
 	// 4. evidence
